@@ -553,7 +553,7 @@ func mapKeyTerm(v Value) *Term {
 
 // Map contents: M:<type>#has : Ref -> key-indexed presence, M:<type>#val : value cells addressed by sub-like refs.
 func (fr *Frame) mapCell(m *Term, key *Term) *Term {
-	return mk("app", "mapcell", 0, SRef, m, key)
+	return MKey(m, key)
 }
 
 func (fr *Frame) lookup(x *ssa.Lookup, st *State) Value {
